@@ -72,11 +72,28 @@ CLAIM = dict(
           "globally_reserved / locally_reserved / alignments answer globalRes / localRes / alignment for every "
           "resource and chip, incl. the isinstance dispatch, `location is None`, list order and last-align-wins).  So the "
           "over-allocation test, the alignment of every proposal, the reservation bump, the per-chip lookup key "
-          "and the re-alignment after a bump are tied to greedy.py by proof.  Still under differential "
-          "correspondence only: the three outer loops (resources of a vertex, vertices of a chip, chips) and the "
-          "grouping of placements by chip (their generated definitions exist and are difftested; the equalities "
-          "to allocResources / allocVertices / allocChips / chipOrder, i.e. gen_allocate = allocate as one "
-          "statement, are not proved yet) and Machine.__getitem__."),
+          "and the re-alignment after a bump are tied to greedy.py by proof.  The three outer loops and the whole "
+          "function are proved too (Props/C05GenTop.lean, C05Group.lean, C05Fuel.lean, C05GenAllocate.lean): the "
+          "generated loop over the resources of a vertex = allocResources (gen_resources: same ranges in dict order, "
+          "pointers handed on, the break / exception flag), over the vertices of a chip = allocVertices "
+          "(gen_vertices, incl. KeyError for a vertex without resources entry), over the chips = allocChips with "
+          "fresh pointers per chip (gen_chips, rel_init), the grouping of placements by chip "
+          "(`chip_contents[xy].append(vertex)`) = chipOrder / chipVertices (gen_group); fuel independence "
+          "(proposeLoop_det, allocateF_det, allocateF_stable: the model run with ONE fuel for every `while` loop is "
+          "either cut off or equal to the model, and from some fuel on it is never cut off).  Hence gen_allocate: on "
+          "every WellFormed input (mappings are dicts, requirements >= 0, alignments >= 1) the function GENERATED "
+          "from greedy.py returns, from some fuel on, exactly what Rig.C05.allocate returns (allocation in dict "
+          "order or the exception), and gen_allocate_det: with any positive fuel it returns that or reports a "
+          "cut-off loop.  The property theorems are restated about the generated function - about what greedy.py "
+          "says at the time of the run: gen_alloc_sound (a returned dict has no None entry and satisfies Valid), gen_alloc_unique, "
+          "gen_alloc_only_failure (dict, InsufficientResourceError or cut-off loop; from some fuel on never cut "
+          "off, i.e. every `while` loop terminates), gen_alloc_complete.  A change of greedy.py that alters the "
+          "meaning of any statement of `allocate` inside the translated subset breaks one of these proofs (or "
+          "leaves the subset: then the translator reports it); the verdict logic of the framework then widens the "
+          "differential search for a concrete failing input.  Still under differential correspondence only: "
+          "Machine.__getitem__ / __contains__ (an environment function of the generated `allocate`; model "
+          "Machine.get), the constraint classes' constructors, ZeroDivisionError for alignment 0 (outside the "
+          "documented domain), the text of the InsufficientResourceError message."),
     technique="Lean 4 theorems over a hand-written model + differential correspondence + Lean spec as oracle")
 
 THEOREMS = ["overlaps_iff_common", "alloc_sound", "alloc_sound_range", "alloc_unique", "alloc_only_failure",
@@ -84,6 +101,10 @@ THEOREMS = ["overlaps_iff_common", "alloc_sound", "alloc_sound_range", "alloc_un
 THEOREMS += ['gen_slices_overlap', 'gen_align']   # translator tie: generated function bodies = model (Props/C05Gen.lean)
 THEOREMS += ['loop7_step', 'loop8_step', 'gen_scan', 'loop6_step', 'gen_propose', 'gen_allocOne',   # generated body of greedy.allocate (inner loops) = model
              'loop1_step', 'gen_collect', 'gen_tables']   # generated constraint collection loop = globalRes / localRes / alignment
+THEOREMS += ['gen_resources', 'gen_vertices', 'gen_chips', 'rel_init', 'gen_group',   # generated outer loops / grouping = allocResources / allocVertices / allocChips / chipOrder
+             'proposeLoop_det', 'allocateF_det', 'allocateF_stable',   # fuel independence
+             'gen_allocateF', 'gen_allocate_det', 'gen_allocate',   # generated allocate = Rig.C05.allocate
+             'gen_alloc_sound', 'gen_alloc_unique', 'gen_alloc_only_failure', 'gen_alloc_complete']   # the property, about the generated function
 
 RULE = ("machines 1-3 x 1-3 with 1-3 resources, per-chip exceptions and dead chips; 1-6 used chips, 0-12 vertices "
         "per chip placed in shuffled (interleaved) order, demands incl. 0 and absent resources; up to 6 global and "
